@@ -59,6 +59,67 @@ def KeyedWithSelected (C : Crypto Tag Sess Blob) (X : List Key) (n : Node Sess) 
 
 /-! ### helper lemmas -/
 
+/-- OBLIGATION on the translated source: the relay branch is entered iff a pending extend with that number exists
+    and the CREATED names the circuit id reserved for it -/
+theorem genCreatedPairs_spec (a b : Bool) : genCreatedPairs a b = (a && b) := by
+  cases a <;> cases b <;> rfl
+
+/-- OBLIGATION on the translated source: on_created hands an answer to `_ours_on_created_extended` iff it is not
+    claimed by the relay branch, a retry cache exists for the circuit AND its packet identifier equals the answer's -/
+theorem genCreatedAccepts_spec (a b c d : Bool) : genCreatedAccepts a b c d = (!(a && b) && (c && d)) := by
+  cases a <;> cases b <;> cases c <;> cases d <;> rfl
+
+/-- OBLIGATION on the translated source: on_extended accepts iff a retry cache exists AND the identifiers are equal -/
+theorem genExtendedAccepts_spec (c d : Bool) : genExtendedAccepts c d = (c && d) := by
+  cases c <;> cases d <;> rfl
+
+theorem originAnswerG_eq [DecidableEq Tag] (g : Bool → Bool → Bool) (hg : ∀ c d, g c d = (c && d)) (C : Crypto Tag Sess Blob)
+    (n : Node Sess) (cid ident : Nat) (key : Option Wire) (auth : Tag) (cands : Blob) (env : Env) :
+    originAnswerG g C n cid ident key auth cands env = originAnswer C n cid ident key auth cands env := by
+  unfold originAnswerG originAnswer
+  cases n.circuits cid with
+  | none => rfl
+  | some c =>
+    simp only [hg]
+    cases hr : c.retry with
+    | none => simp
+    | some r =>
+      by_cases hi : r.ident = ident
+      · simp [hi]
+      · simp [hi]
+
+theorem onExtendedG_eq [DecidableEq Tag] (C : Crypto Tag Sess Blob) (n : Node Sess) (cid ident : Nat) (key : Option Wire)
+    (auth : Tag) (cands : Blob) (env : Env) :
+    onExtendedG C n cid ident key auth cands env = onExtended C n cid ident key auth cands env := by
+  unfold onExtendedG onExtended
+  exact originAnswerG_eq _ genExtendedAccepts_spec C n cid ident key auth cands env
+
+theorem onCreatedG_eq [DecidableEq Tag] (C : Crypto Tag Sess Blob) (n : Node Sess) (cid ident : Nat) (key : Option Wire)
+    (auth : Tag) (cands : Blob) (env : Env) :
+    onCreatedG C n cid ident key auth cands env = onCreated C n cid ident key auth cands env := by
+  unfold onCreatedG onCreated pairing?
+  simp only [genCreatedPairs_spec]
+  cases hc : n.creates ident with
+  | none =>
+    simp only [Option.isSome_none, Bool.false_and, Bool.false_eq_true, if_false]
+    exact originAnswerG_eq _ (fun c d => by simp [genCreatedAccepts_spec]) C n cid ident key auth cands env
+  | some req =>
+    by_cases ht : req.toCid = cid
+    · simp [ht, relayPairing]
+    · simp only [Option.isSome_some, Bool.true_and, beq_iff_eq, ht, if_false]
+      exact originAnswerG_eq _ (fun c d => by simp [genCreatedAccepts_spec, ht]) C n cid ident key auth cands env
+
+theorem step_extended_eq [DecidableEq Tag] (C : Crypto Tag Sess Blob) (n : Node Sess) (cid ident : Nat)
+    (key : Option Wire) (auth : Tag) (cands : Blob) (env : Env) :
+    step C n (.extended cid ident key auth cands env) = originAnswer C n cid ident key auth cands env := by
+  simp only [step, onExtendedG_eq, onExtended]
+
+theorem step_created_eq [DecidableEq Tag] (C : Crypto Tag Sess Blob) (n : Node Sess) (cid ident : Nat)
+    (key : Option Wire) (auth : Tag) (cands : Blob) (env : Env) :
+    step C n (.created cid ident key auth cands env) = onCreated C n cid ident key auth cands env := by
+  simp only [step, onCreatedG_eq]
+
+
 theorem dh_comm (a b : Key) : dh a b = dh b a := by
   unfold dh
   by_cases h1 : a ≤ b <;> by_cases h2 : b ≤ a <;> simp [h1, h2]
@@ -197,7 +258,7 @@ theorem ours_spec [DecidableEq Tag] (C : Crypto Tag Sess Blob) (me cid : Nat) (c
         unfold AcceptedShape
         split
         · split
-          · exact Or.inr ⟨_, rfl, rfl, rfl, Or.inl ⟨rfl, rfl⟩⟩
+          · exact Or.inl rfl
           · next cl hdec =>
             rcases extendAfterAccept_spec (Tag := Tag) (Blob := Blob) me cid
               { c with unverified := none, hops := c.hops ++ [{ peer := b, keys := C.kdf [dh x w.pt, dh x b] }] }
@@ -310,30 +371,30 @@ theorem step_circ_cases [DecidableEq Tag] (C : Crypto Tag Sess Blob) (n : Node S
   | createCircuit cid' goal re fh env =>
     have hc : cid ≠ cid' := fun h => hnew (by simp [Ev.createsCircuit, h])
     left
-    simp only [step, createCircuit, setCirc_circ, hc, if_false, h0]
+    simp only [step, onCreatedG_eq, onExtendedG_eq, createCircuit, setCirc_circ, hc, if_false, h0]
   | created cid' ident key auth cands env =>
     cases hcr : pairing? n cid' ident with
     | some req =>
       left
-      simp only [step, onCreated, hcr]
+      simp only [step, onCreatedG_eq, onExtendedG_eq, onCreated, hcr]
       split
       · exact h0
       · split
         · exact h0
         · split <;> exact h0
     | none =>
-      exact answer cid' ident key auth cands env (Or.inl rfl) (by simp [step, onCreated, hcr])
+      exact answer cid' ident key auth cands env (Or.inl rfl) (by simp [step, onCreatedG_eq, onExtendedG_eq, onCreated, hcr])
   | extended cid' ident key auth cands env =>
-    exact answer cid' ident key auth cands env (Or.inr rfl) (by simp [step, onExtended])
+    exact answer cid' ident key auth cands env (Or.inr rfl) (by simp [step, onCreatedG_eq, onExtendedG_eq, onExtended])
   | retryTimeout cid' env =>
     by_cases hc : cid = cid'
     · subst hc
       right; right; left
       refine ⟨env, rfl, ?_⟩
-      simp only [step, retryTimeout, h0, setCirc_circ, if_true]
+      simp only [step, onCreatedG_eq, onExtendedG_eq, retryTimeout, h0, setCirc_circ, if_true]
       exact onTimeout_resent _ _ _ _
     · left
-      simp only [step, retryTimeout]
+      simp only [step, onCreatedG_eq, onExtendedG_eq, retryTimeout]
       split
       · exact h0
       · simp [setCirc_circ, hc, h0]
@@ -342,7 +403,7 @@ theorem step_circ_cases [DecidableEq Tag] (C : Crypto Tag Sess Blob) (n : Node S
     · subst hc
       right; right; left
       refine ⟨env, rfl, ?_⟩
-      simp only [step, h0, setCirc_circ, if_true]
+      simp only [step, onCreatedG_eq, onExtendedG_eq, h0, setCirc_circ, if_true]
       exact sendExtend_resent _ _ _ _ _ _
     · left
       simp only [step]
@@ -354,7 +415,7 @@ theorem step_circ_cases [DecidableEq Tag] (C : Crypto Tag Sess Blob) (n : Node S
     · subst hc
       right; right; left
       refine ⟨env, rfl, ?_⟩
-      simp only [step, h0, setCirc_circ, if_true]
+      simp only [step, onCreatedG_eq, onExtendedG_eq, h0, setCirc_circ, if_true]
       exact sendInitialCreate_resent _ _ _ _ _ _
     · left
       simp only [step]
@@ -363,11 +424,11 @@ theorem step_circ_cases [DecidableEq Tag] (C : Crypto Tag Sess Blob) (n : Node S
       · simp [setCirc_circ, hc, h0]
   | removeCircuit cid' =>
     by_cases hc : cid = cid'
-    · right; left; simp [step, upd, hc]
-    · left; simp [step, upd, hc, h0]
+    · right; left; simp [step, onCreatedG_eq, onExtendedG_eq, upd, hc]
+    · left; simp [step, onCreatedG_eq, onExtendedG_eq, upd, hc, h0]
   | create cid' ident nodePk key y offered =>
     left
-    simp only [step, onCreate]
+    simp only [step, onCreatedG_eq, onExtendedG_eq, onCreate]
     split
     · exact h0
     · split
@@ -377,13 +438,13 @@ theorem step_circ_cases [DecidableEq Tag] (C : Crypto Tag Sess Blob) (n : Node S
         · split <;> exact h0
   | join cid' ident nodePk key y offered =>
     left
-    simp only [step, joinCircuit]
+    simp only [step, onCreatedG_eq, onExtendedG_eq, joinCircuit]
     split
     · exact h0
     · split <;> exact h0
   | extend cid' ident nodePk key ag toCid number =>
     left
-    simp only [step, onExtend]
+    simp only [step, onCreatedG_eq, onExtendedG_eq, onExtend]
     split
     · exact h0
     · split
@@ -401,18 +462,18 @@ theorem step_absent [DecidableEq Tag] (C : Crypto Tag Sess Blob) (n : Node Sess)
   cases e with
   | createCircuit cid' goal re fh env =>
     have hc : cid ≠ cid' := fun h => hnew (by simp [Ev.createsCircuit, h])
-    simp only [step, createCircuit, setCirc_circ, hc, if_false, h0]
+    simp only [step, onCreatedG_eq, onExtendedG_eq, createCircuit, setCirc_circ, hc, if_false, h0]
   | created cid' ident key auth cands env =>
     cases hcr : pairing? n cid' ident with
     | some req =>
-      simp only [step, onCreated, hcr]
+      simp only [step, onCreatedG_eq, onExtendedG_eq, onCreated, hcr]
       split
       · exact h0
       · split
         · exact h0
         · split <;> exact h0
     | none =>
-      simp only [step, onCreated, hcr]
+      simp only [step, onCreatedG_eq, onExtendedG_eq, onCreated, hcr]
       by_cases hc : cid' = cid
       · subst hc; rw [originAnswer_noop C n cid' ident key auth cands env (Or.inl h0)]; exact h0
       · unfold originAnswer
@@ -424,7 +485,7 @@ theorem step_absent [DecidableEq Tag] (C : Crypto Tag Sess Blob) (n : Node Sess)
             · simp [setCirc_circ, Ne.symm hc, h0]
             · exact h0
   | extended cid' ident key auth cands env =>
-    simp only [step, onExtended]
+    simp only [step, onCreatedG_eq, onExtendedG_eq, onExtended]
     by_cases hc : cid' = cid
     · subst hc; rw [originAnswer_noop C n cid' ident key auth cands env (Or.inl h0)]; exact h0
     · unfold originAnswer
@@ -436,7 +497,7 @@ theorem step_absent [DecidableEq Tag] (C : Crypto Tag Sess Blob) (n : Node Sess)
           · simp [setCirc_circ, Ne.symm hc, h0]
           · exact h0
   | retryTimeout cid' env =>
-    simp only [step, retryTimeout]
+    simp only [step, onCreatedG_eq, onExtendedG_eq, retryTimeout]
     split
     · exact h0
     · next c1 h1 =>
@@ -458,10 +519,10 @@ theorem step_absent [DecidableEq Tag] (C : Crypto Tag Sess Blob) (n : Node Sess)
       simp [setCirc_circ, hc, h0]
   | removeCircuit cid' =>
     by_cases hc : cid = cid'
-    · simp [step, upd, hc]
-    · simp [step, upd, hc, h0]
+    · simp [step, onCreatedG_eq, onExtendedG_eq, upd, hc]
+    · simp [step, onCreatedG_eq, onExtendedG_eq, upd, hc, h0]
   | create cid' ident nodePk key y offered =>
-    simp only [step, onCreate]
+    simp only [step, onCreatedG_eq, onExtendedG_eq, onCreate]
     split
     · exact h0
     · split
@@ -470,12 +531,12 @@ theorem step_absent [DecidableEq Tag] (C : Crypto Tag Sess Blob) (n : Node Sess)
         · exact h0
         · split <;> exact h0
   | join cid' ident nodePk key y offered =>
-    simp only [step, joinCircuit]
+    simp only [step, onCreatedG_eq, onExtendedG_eq, joinCircuit]
     split
     · exact h0
     · split <;> exact h0
   | extend cid' ident nodePk key ag toCid number =>
-    simp only [step, onExtend]
+    simp only [step, onCreatedG_eq, onExtendedG_eq, onExtend]
     split
     · exact h0
     · split
@@ -629,7 +690,7 @@ theorem unchanged_reason [DecidableEq Tag] (C : Crypto Tag Sess Blob) (n : Node 
                 simp only [hu, genVerify_eq, pubOf, hm, if_true]
                 split
                 · split
-                  · intro hh; injection hh with hh; have := congrArg Circ.hops hh; simp at this
+                  · intro hh; cases hh
                   · intro hh
                     rcases extendAfterAccept_spec (Tag := Tag) (Blob := Blob) n.me cid _ _ env with
                       h5 | ⟨c5, h5, h6, _⟩
@@ -663,7 +724,7 @@ theorem keyed_step [DecidableEq Tag] (C : Crypto Tag Sess Blob) (X : List Key) (
     | createCircuit cid' goal re fh env =>
       have : cid' = cid := hnew
       subst this
-      simp only [step, createCircuit, setCirc_circ, if_true] at hc'
+      simp only [step, onCreatedG_eq, onExtendedG_eq, createCircuit, setCirc_circ, if_true] at hc'
       rcases sendInitialCreate_resent (Tag := Tag) (Blob := Blob) n.me cid'
         { goal := goal, hops := [], unverified := none, retry := none, requiredExit := re } fh genInitialTries env
         with h1 | ⟨c1, h1, hh, _, ⟨hu, _⟩ | ⟨t, r, hu, _, _⟩⟩
@@ -820,30 +881,30 @@ theorem step_joined [DecidableEq Tag] (C : Crypto Tag Sess Blob) (n : Node Sess)
   | createCircuit cid goal re fh env => left; exact ⟨rfl, rfl⟩
   | created cid ident key auth cands env =>
     cases hcr : pairing? n cid ident with
-    | none => left; simp only [step, onCreated, hcr]; exact origin cid ident key auth cands env
+    | none => left; simp only [step, onCreatedG_eq, onExtendedG_eq, onCreated, hcr]; exact origin cid ident key auth cands env
     | some req =>
       have hcreq := (pairing_some hcr).1
       cases hex : n.exits req.fromCid with
-      | none => left; simp [step, onCreated, hcr, hex]
+      | none => left; simp [step, onCreatedG_eq, onExtendedG_eq, onCreated, hcr, hex]
       | some ex =>
         by_cases hpeer : (ex.peer != req.peer) = true
-        · left; simp [step, onCreated, hcr, hex, hpeer]
+        · left; simp [step, onCreatedG_eq, onExtendedG_eq, onCreated, hcr, hex, hpeer]
         by_cases hused : ((n.circuits req.toCid).isSome || (n.relays req.toCid).isSome ||
             (n.exits req.toCid).isSome) = true
-        · left; simp [step, onCreated, hcr, hex, hpeer, hused]
+        · left; simp [step, onCreatedG_eq, onExtendedG_eq, onCreated, hcr, hex, hpeer, hused]
         · right; right; left
           have hu := hused
           simp only [Bool.or_eq_true, not_or, Option.isSome_iff_ne_none, ne_eq, Classical.not_not] at hu
           refine ⟨cid, ident, key, auth, cands, env, req, ex, rfl, hcreq, hex, hu.1.1, hu.1.2, hu.2, ?_, ?_⟩ <;>
-            simp [step, onCreated, hcr, hex, hpeer, hused]
-  | extended cid ident key auth cands env => left; exact origin cid ident key auth cands env
+            simp [step, onCreatedG_eq, onExtendedG_eq, onCreated, hcr, hex, hpeer, hused]
+  | extended cid ident key auth cands env => left; rw [step_extended_eq]; exact origin cid ident key auth cands env
   | retryTimeout cid env =>
-    left; simp only [step, retryTimeout]; split <;> exact ⟨rfl, rfl⟩
+    left; simp only [step, onCreatedG_eq, onExtendedG_eq, retryTimeout]; split <;> exact ⟨rfl, rfl⟩
   | sendExtend cid cands tries env => left; simp only [step]; split <;> exact ⟨rfl, rfl⟩
   | sendInitialCreate cid cands tries env => left; simp only [step]; split <;> exact ⟨rfl, rfl⟩
   | removeCircuit cid => left; exact ⟨rfl, rfl⟩
   | create cid ident nodePk key y offered =>
-    simp only [step, onCreate]
+    simp only [step, onCreatedG_eq, onExtendedG_eq, onCreate]
     split
     · left; exact ⟨rfl, rfl⟩
     · split
@@ -857,7 +918,7 @@ theorem step_joined [DecidableEq Tag] (C : Crypto Tag Sess Blob) (n : Node Sess)
             simp only [Bool.or_eq_true, not_or, Option.isSome_iff_ne_none, ne_eq, Classical.not_not] at hused
             exact ⟨cid, _, hused.2, hused.1.2, hused.1.1, rfl, rfl⟩
   | join cid ident nodePk key y offered =>
-    simp only [step, joinCircuit]
+    simp only [step, onCreatedG_eq, onExtendedG_eq, joinCircuit]
     split
     · left; exact ⟨rfl, rfl⟩
     · split
@@ -868,7 +929,7 @@ theorem step_joined [DecidableEq Tag] (C : Crypto Tag Sess Blob) (n : Node Sess)
         exact ⟨cid, ident, nodePk, _, y, offered, _, rfl, hc, rfl, rfl⟩
   | extend cid ident nodePk key ag toCid number =>
     left
-    simp only [step, onExtend]
+    simp only [step, onCreatedG_eq, onExtendedG_eq, onExtend]
     split
     · exact ⟨rfl, rfl⟩
     · split
@@ -892,7 +953,7 @@ theorem originAnswer_creates [DecidableEq Tag] (C : Crypto Tag Sess Blob) (n : N
 theorem created_eq_extended [DecidableEq Tag] (C : Crypto Tag Sess Blob) (n : Node Sess) (cid ident : Nat)
     (key : Option Wire) (auth : Tag) (cands : Blob) (env : Env) (hrel : n.creates ident = none) :
     step C n (.created cid ident key auth cands env) = step C n (.extended cid ident key auth cands env) := by
-  simp [step, onCreated, onExtended, pairing_none_of_creates hrel]
+  simp [step, onCreatedG_eq, onExtendedG_eq, onCreated, onExtended, pairing_none_of_creates hrel]
 
 theorem resend_creates [DecidableEq Tag] (C : Crypto Tag Sess Blob) (n : Node Sess) (cid : Nat) (env : Env) (targets : List Key)
     (tries : Int) :
@@ -900,7 +961,7 @@ theorem resend_creates [DecidableEq Tag] (C : Crypto Tag Sess Blob) (n : Node Se
     (step C n (.sendExtend cid targets tries env)).1.creates = n.creates ∧
     (step C n (.sendInitialCreate cid targets tries env)).1.creates = n.creates := by
   refine ⟨?_, ?_, ?_⟩
-  · simp only [step, retryTimeout]; split <;> rfl
+  · simp only [step, onCreatedG_eq, onExtendedG_eq, retryTimeout]; split <;> rfl
   · simp only [step]; split <;> rfl
   · simp only [step]; split <;> rfl
 
@@ -982,7 +1043,7 @@ theorem ours_kind [DecidableEq Tag] (C : Crypto Tag Sess Blob) (me cid : Nat) (c
     simp only [hu, genVerify_eq, pubOf, if_true] at h
     split at h
     · split at h
-      · simp at h; subst h; intro r hr; simp at hr
+      · cases h
       · rcases extendAfterAccept_spec (Tag := Tag) (Blob := Blob) me cid _ _ env with
           h5 | ⟨c5, h5, _, _, ⟨_, h7⟩ | ⟨t, r5, _, h7, _, h8⟩⟩
         · rw [h5] at h; cases h
@@ -1009,13 +1070,13 @@ theorem step_circ_kind [DecidableEq Tag] (C : Crypto Tag Sess Blob) (n : Node Se
   cases e with
   | createCircuit cid' goal re fh env =>
     have hc : cid ≠ cid' := fun h => hnew (by simp [Ev.createsCircuit, h])
-    simp only [step, createCircuit, setCirc_circ, hc, if_false] at h1
+    simp only [step, onCreatedG_eq, onExtendedG_eq, createCircuit, setCirc_circ, hc, if_false] at h1
     rw [h0] at h1; cases h1; exact hinv
   | created cid' ident key auth cands env =>
     cases hcr : pairing? n cid' ident with
     | some req =>
       have : (step C n (.created cid' ident key auth cands env)).1.circuits cid = n.circuits cid := by
-        simp only [step, onCreated, hcr]
+        simp only [step, onCreatedG_eq, onExtendedG_eq, onCreated, hcr]
         split
         · rfl
         · split
@@ -1023,18 +1084,18 @@ theorem step_circ_kind [DecidableEq Tag] (C : Crypto Tag Sess Blob) (n : Node Se
           · split <;> rfl
       rw [this, h0] at h1; cases h1; exact hinv
     | none =>
-      simp only [step, onCreated, hcr] at h1
+      simp only [step, onCreatedG_eq, onExtendedG_eq, onCreated, hcr] at h1
       exact origin cid' ident key auth cands env h1
   | extended cid' ident key auth cands env =>
-    simp only [step, onExtended] at h1
+    simp only [step, onCreatedG_eq, onExtendedG_eq, onExtended] at h1
     exact origin cid' ident key auth cands env h1
   | retryTimeout cid' env =>
     by_cases hc : cid = cid'
     · subst hc
-      simp only [step, retryTimeout, h0, setCirc_circ, if_true] at h1
+      simp only [step, onCreatedG_eq, onExtendedG_eq, retryTimeout, h0, setCirc_circ, if_true] at h1
       exact onTimeout_kind _ _ _ _ _ hinv h1
     · have : (step C n (.retryTimeout cid' env)).1.circuits cid = n.circuits cid := by
-        simp only [step, retryTimeout]
+        simp only [step, onCreatedG_eq, onExtendedG_eq, retryTimeout]
         split
         · rfl
         · simp [setCirc_circ, hc]
@@ -1042,7 +1103,7 @@ theorem step_circ_kind [DecidableEq Tag] (C : Crypto Tag Sess Blob) (n : Node Se
   | sendExtend cid' cands tries env =>
     by_cases hc : cid = cid'
     · subst hc
-      simp only [step, h0, setCirc_circ, if_true] at h1
+      simp only [step, onCreatedG_eq, onExtendedG_eq, h0, setCirc_circ, if_true] at h1
       exact fun _ => (sendExtend_kind _ _ _ _ _ _ c' h1).2
     · have : (step C n (.sendExtend cid' cands tries env)).1.circuits cid = n.circuits cid := by
         simp only [step]
@@ -1053,7 +1114,7 @@ theorem step_circ_kind [DecidableEq Tag] (C : Crypto Tag Sess Blob) (n : Node Se
   | sendInitialCreate cid' cands tries env =>
     by_cases hc : cid = cid'
     · subst hc
-      simp only [step, h0, setCirc_circ, if_true] at h1
+      simp only [step, onCreatedG_eq, onExtendedG_eq, h0, setCirc_circ, if_true] at h1
       have hh := sendInitialCreate_keeps _ _ _ _ _ _ c' h1
       have hfresh : c.hops = [] := hapi c h0
       intro hne
@@ -1067,11 +1128,11 @@ theorem step_circ_kind [DecidableEq Tag] (C : Crypto Tag Sess Blob) (n : Node Se
       rw [this, h0] at h1; cases h1; exact hinv
   | removeCircuit cid' =>
     by_cases hc : cid = cid'
-    · simp [step, upd, hc] at h1
-    · simp [step, upd, hc, h0] at h1; subst h1; exact hinv
+    · simp [step, onCreatedG_eq, onExtendedG_eq, upd, hc] at h1
+    · simp [step, onCreatedG_eq, onExtendedG_eq, upd, hc, h0] at h1; subst h1; exact hinv
   | create cid' ident nodePk key y offered =>
     have : (step C n (.create cid' ident nodePk key y offered)).1.circuits cid = n.circuits cid := by
-      simp only [step, onCreate]
+      simp only [step, onCreatedG_eq, onExtendedG_eq, onCreate]
       split
       · rfl
       · split
@@ -1082,14 +1143,14 @@ theorem step_circ_kind [DecidableEq Tag] (C : Crypto Tag Sess Blob) (n : Node Se
     rw [this, h0] at h1; cases h1; exact hinv
   | join cid' ident nodePk key y offered =>
     have : (step C n (.join cid' ident nodePk key y offered)).1.circuits cid = n.circuits cid := by
-      simp only [step, joinCircuit]
+      simp only [step, onCreatedG_eq, onExtendedG_eq, joinCircuit]
       split
       · rfl
       · split <;> rfl
     rw [this, h0] at h1; cases h1; exact hinv
   | extend cid' ident nodePk key ag toCid number =>
     have : (step C n (.extend cid' ident nodePk key ag toCid number)).1.circuits cid = n.circuits cid := by
-      simp only [step, onExtend]
+      simp only [step, onCreatedG_eq, onExtendedG_eq, onExtend]
       split
       · rfl
       · split
@@ -1110,7 +1171,7 @@ theorem no_create_retry_step [DecidableEq Tag] (C : Crypto Tag Sess Blob) (n : N
     | createCircuit cid' goal re fh env =>
       have : cid' = cid := hnew
       subst this
-      simp only [step, createCircuit, setCirc_circ, if_true] at h1
+      simp only [step, onCreatedG_eq, onExtendedG_eq, createCircuit, setCirc_circ, if_true] at h1
       have hh := sendInitialCreate_keeps _ _ _ _ _ _ c' h1
       intro hne; rw [hh] at hne; exact absurd rfl hne
     | _ => exact absurd hnew (by simp [Ev.createsCircuit])
